@@ -41,6 +41,8 @@ def run_check(pid, tier, seed):
     drv = _driver(pid)
     info = drv.configure(tier, seed) or {}
     cov_extra = {}
+    if hasattr(drv, 'prepare'):
+        drv.prepare(tier, seed)          # master-side preparation (e.g. reference tables from fresh interpreters)
     if hasattr(drv, 'run'):
         acc, cov_extra = drv.run(tier, seed)
     else:
